@@ -1262,6 +1262,14 @@ impl<'a> GeneratorState<'a> {
                 .compiler_state
                 .syntax_error("csleep needs a DUMMY variable for this number of cycles", pos));
         }
+        // STA and DEC take 3 and 5 cycles on a zeropage location only
+        if matches!(cycles, 3 | 5 | 9 | 10)
+            && self.compiler_state.get_variable("DUMMY").memory != VariableMemory::Zeropage
+        {
+            return Err(self
+                .compiler_state
+                .syntax_error("csleep needs DUMMY to be in zeropage for this number of cycles", pos));
+        }
         match cycles {
             2 => self.sasm_protected(NOP)?,
             3 => self.asm(
